@@ -340,7 +340,10 @@ MonoDir(f, pos, a1, a2, o) ==
            [] f = "tan" -> IF Within(a1, a2, NumNeg(HalfPi), HalfPi) THEN "inc" ELSE "none"
            [] f = "cos" -> IF Within(a1, a2, I(0), ConstPI) THEN "dec" ELSE IF Within(a1, a2, NumNeg(ConstPI), I(0)) THEN "inc" ELSE "none"
            [] f = "abs" -> IF Le(I(0), a1) THEN "inc" ELSE IF Le(a2, I(0)) THEN "dec" ELSE "none"
-           [] f = "atan2" -> IF pos = 1 THEN "inc" ELSE "none"                      \* increasing in y for every x
+           [] f = "atan2" -> IF pos # 1 THEN "none"
+                             ELSE IF ~IsNeg(o) THEN "inc"                            \* x > 0 or x = +0: increasing in y
+                             ELSE IF IsNeg(a1) = IsNeg(a2) THEN "dec"                \* x < 0 or x = -0: decreasing on either side of the cut
+                             ELSE "none"
            [] f = "pow" -> IF pos = 1 THEN (IF ~Le(I(0), a1) \/ IsZero(o) THEN "none" ELSE IF IsNeg(o) THEN "dec" ELSE "inc")
                            ELSE (IF ~IsFinite(o) \/ Le(o, I(0)) \/ o = One THEN "none" ELSE IF Lt(One, o) THEN "inc" ELSE "dec")
            [] f \in {"max", "min"} -> "inc"
